@@ -204,9 +204,42 @@ fn delta_strategy() -> BoxedStrategy<u64> {
     prop_oneof![1 => Just(0u64), 4 => 0u64..60, 4 => 0u64..600, 1 => 0u64..3000].boxed()
 }
 
+/// dense prefixes (several events per time unit) with long queries: the shared cache grows to
+/// thousands of entries (behaviour that only shows at large sizes)
+fn dense_hist_strategy() -> BoxedStrategy<HistCase> {
+    (
+        proptest::collection::vec(prop_oneof![2 => Just(0u64), 1 => Just(1u64)], 3..=6),
+        proptest::collection::vec((0usize..3, 400u64..2600, any::<bool>()), 2..5),
+    )
+        .prop_map(|(incs, qs)| {
+            let mut acc = 0;
+            let mut v: Vec<u64> = incs
+                .iter()
+                .map(|x| {
+                    acc += x;
+                    acc
+                })
+                .collect();
+            if *v.last().unwrap() == 0 {
+                let l = v.len();
+                v[l - 1] = 1;
+            }
+            let dmin = superadditive_closure(&v, v.len());
+            let mut ops = vec![Op::Clone { who: 0 }];
+            for (who, delta, steps_first) in qs {
+                if steps_first {
+                    ops.push(Op::Steps { who: who + 1, k: 30 });
+                }
+                ops.push(Op::Arrivals { who, delta });
+            }
+            HistCase { dmin, ops }
+        })
+        .boxed()
+}
+
 fn hist_strategy(tier: Tier) -> BoxedStrategy<HistCase> {
     let tmax = tier.pick(25, 50);
-    (
+    let general = (
         dmin_strategy(6, tmax, true),
         proptest::collection::vec(
             prop_oneof![
@@ -221,7 +254,28 @@ fn hist_strategy(tier: Tier) -> BoxedStrategy<HistCase> {
         ),
     )
         .prop_map(|(dmin, ops)| HistCase { dmin, ops })
-        .boxed()
+        .boxed();
+    prop_oneof![60 => general, 1 => dense_hist_strategy()].boxed()
+}
+
+pub fn decode_hist(d: &mut crate::dec::Dec) -> HistCase {
+    use crate::dec::*;
+    let dmin = dec_dmin(d, 25, true);
+    let ops = d.vec(1, 15, |d| {
+        let delta = |d: &mut Dec| match d.pick(4) {
+            0 => d.range(0, 59),
+            1 | 2 => d.range(0, 599),
+            _ => d.range(0, 2999),
+        };
+        match d.pick(7) {
+            0 | 1 | 2 => Op::Arrivals { who: d.pick(5), delta: delta(d) },
+            3 => Op::Steps { who: d.pick(5), k: d.pick(40) },
+            4 => Op::HoldThenQuery { who: d.pick(5), pre: d.pick(12), other: d.pick(5), delta: delta(d), post: d.pick(12) },
+            5 => Op::Clone { who: d.pick(5) },
+            _ => Op::Jitter { who: d.pick(5), j: d.range(0, 59) },
+        }
+    });
+    HistCase { dmin, ops }
 }
 
 enum Member {
@@ -358,7 +412,7 @@ pub fn def() -> PropertyDef {
         ],
         subchecks: vec![
             subcheck("eager", (1500, 60_000), eager_strategy, check_eager),
-            subcheck("history", (4000, 150_000), hist_strategy, check_hist),
+            subcheck("history", (4000, 150_000), hist_strategy, check_hist).with_decoder(decode_hist, check_hist),
         ],
         extra: None,
     }
